@@ -7,7 +7,7 @@ Open Scope Z_scope.
 
 Inductive prc_step :=
 | PsBlock (r : Z) (micros : list pr_micro) (adds dels nodes : list pr_hash)
-| PsPrune (readable : list bool)      (* one flag per block of the finalized chain, oldest first *)
+| PsPrune (readable : list bool) (ver : option Z)   (* one flag per block of the finalized chain, oldest first; the version passed to PruneBelowVersion *)
 | PsRollback (r0 : Z).
 
 Record prc_case := { prc_start : Z; prc_count : Z; prc_steps : list prc_step }.
@@ -30,8 +30,9 @@ Fixpoint prc_go (count : Z) (s : pr_state) (steps : list prc_step) : bool :=
       forallb (fun h => pr_mem h prev || pr_mem h adds) nodes &&
       pr_disjoint dels nodes && forallb (fun h => fst h <=? r) dels &&
       prc_go count (pr_finalize s r adds dels nodes) tl
-  | PsPrune readable :: tl =>
+  | PsPrune readable ver :: tl =>
       let s' := pr_prune s count in
+      option_eqb Z.eqb (pr_version s count) ver &&
       list_eqb Bool.eqb (map (pr_readable s') (rev (ps_blocks s'))) readable &&
       prc_go count s' tl
   | PsRollback r0 :: tl =>
